@@ -1044,10 +1044,7 @@ def shifted_of(p: bytes) -> bytes:
     t["Flags"] = fl
     t["FullID"], t["ID"], t["CRC"] = U(34), int(t["ID"]) ^ 0x20000, int(t["CRC"]) ^ 0xFF00
     t["Position"] = Vector3(1.0, 2.0, 3.0)
-    try:
-        return SER.serialize(None, t)
-    except Exception as e:
-        raise HarnessError(f"shifted partner not serialisable: {e!r}")
+    return SER.serialize(None, t)
 
 
 def _decode_with(which: str, q: bytes, cache: Optional[RegionViewerObjectCache] = None) -> Dict[str, Any]:
@@ -1059,7 +1056,7 @@ def _decode_with(which: str, q: bytes, cache: Optional[RegionViewerObjectCache] 
         lid, crc = struct.unpack_from("<I", q, 16)[0], struct.unpack_from("<I", q, 22)[0]
         data = cache.lookup_object_data(lid, crc)
         if data is None:
-            raise HarnessError("cache file lost an entry")
+            raise LookupError(f"cache file has no entry for ({lid}, {crc:#x}) although it was written")
         return objmod.normalize_object_update_compressed_data(data)
     return objmod.normalize_object_update_compressed_data(q)
 
@@ -1067,15 +1064,51 @@ def _decode_with(which: str, q: bytes, cache: Optional[RegionViewerObjectCache] 
 SITE_PREFIX = {"fast": "fast.read", "template": "template", "normalize": "normalize", "cache-normalize": "cache-normalize"}
 
 
+def canonical_reference(part: Part, label: str, tname: str, q: bytes, kind: str) -> Tuple[Optional[Dict[str, Any]], bool]:
+    """(pristine deep copy of the template's decoding of q | None, q re-encodes to itself).  A payload of the generated domain
+    that the template cannot decode, or does not re-encode to itself, is the property's template-decode / reencode clause."""
+    w = {"kind": "payload", "origin": "generated", "hex": q.hex(), "case": f"{kind} {label} ({tname} payload)"}
+    try:
+        t = SER.deserialize(None, q)
+        ref = {k: copy.deepcopy(force(v)) for k, v in t.items()}
+    except Exception as e:
+        part.violation("template-decode", f"Data.{kind}-history", w, f"template cannot decode the {tname} payload of {label}: {e!r}")
+        return None, False
+    enc, member, exc = template_encode(ref)
+    if exc is not None:
+        part.violation("reencode", f"Data.{member}", w, f"template.serialize(template.deserialize(p)) raised at {member}: {exc!r}")
+        return ref, False
+    if enc != q:
+        i = next((j for j in range(min(len(q), len(enc))) if q[j] != enc[j]), min(len(q), len(enc)))
+        w2 = se.MemberTrackingBufferWriter("<")
+        w2.write(SER.TEMPLATE, ref)
+        tops2 = [(pos, st[0]) for pos, st in w2.member_positions if len(st) == 1]
+        m = member_at(tops2, i)
+        part.violation("reencode", f"Data.{m}", w, f"{label} ({tname} payload): re-encoding differs at offset {i} (member {m}): payload "
+                                                    f"{len(q)} B ...{q[max(0, i - 2):i + 6].hex()}, re-encoded {len(enc)} B ...{enc[max(0, i - 2):i + 6].hex()}")
+        return ref, False
+    return ref, True
+
+
 def run_history(part: Part, label: str, p: bytes, source: str) -> None:
-    targets = [("same", p), ("twin", twin_of(p)), ("shifted", shifted_of(p))]
+    targets = [("same", p), ("twin", twin_of(p))]
+    try:
+        targets.append(("shifted", shifted_of(p)))
+    except Exception:
+        part.count("E_shifted_partner_unavailable")  # the template could not decode / re-encode p: judged just below for p itself
     # pristine references, deep-copied so that nothing the decoders may share can reach them
     refs: Dict[str, Dict[str, Any]] = {}
-    for tname, q in targets:
-        t = SER.deserialize(None, q)
-        refs[tname] = {k: copy.deepcopy(force(v)) for k, v in t.items()}
-        if SER.serialize(None, refs[tname]) != q:
-            raise HarnessError(f"history partner {tname} of {label} is not canonical")
+    canonical: Dict[str, bool] = {}
+    for tname, q in list(targets):
+        ref, canon = canonical_reference(part, label, tname, q, "decode")
+        if ref is None:
+            targets.remove((tname, q))
+            continue
+        refs[tname], canonical[tname] = ref, canon
+    if "same" not in refs:
+        part.count("evaluations")
+        part.count("E_histories")
+        return
     with tempfile.TemporaryDirectory(prefix="c13-hist-") as d:
         path = os.path.join(d, "objects_1000_1002.slc")
         buf = bytearray(U(40).bytes + struct.pack("<i", len(targets)))
@@ -1133,7 +1166,7 @@ def run_history(part: Part, label: str, p: bytes, source: str) -> None:
                                        f"history: r1 = {source}(p); r1 edited in place; then {dec}({tname} payload) no longer matches the "
                                        f"wire bytes: {msg}")
                         bad = True
-            if dec in ("fast", "template"):
+            if dec in ("fast", "template") and canonical[tname]:
                 try:
                     enc = SER.serialize(None, r)
                 except Exception as e:
@@ -1238,19 +1271,20 @@ def encode_history_ops(edits: Dict[str, Any], foreign: List[Tuple[str, Any, Any]
 
 
 def run_encode_history(part: Part, label: str, p: bytes, ops: Optional[List[str]] = None) -> None:
-    t = SER.deserialize(None, p)
-    d = {k: force(v) for k, v in t.items()}
-    ref = copy.deepcopy(d)
-    if SER.serialize(None, d) != p:
-        raise HarnessError(f"encode-history payload {label} is not canonical")
+    part.count("F_histories")
+    ref, canon = canonical_reference(part, label, "same", p, "encode")
+    if ref is None or not canon:
+        part.count("evaluations")
+        part.count("F_histories_skipped_noncanonical")  # reported as template-decode / reencode by canonical_reference
+        return
+    d = {k: force(v) for k, v in SER.deserialize(None, p).items()}
     edits = failing_edits(d)
     foreign = foreign_failures()
     fmap = {f"foreign:{n}": (ser, v) for n, ser, v in foreign}
     if ops is None:
         if len(edits) < 20 or not foreign:
-            raise HarnessError(f"vacuous encode history: {len(edits)} failing edits, {len(foreign)} foreign failing encodes")
+            part.count("F_histories_thin")  # the implementation rejects (almost) nothing any more: noted in the evidence
         ops = encode_history_ops(edits, foreign)
-    part.count("F_histories")
     part.count("F_failing_edits", len(edits))
     done: List[str] = []
     last_fail = "none"
@@ -1328,7 +1362,10 @@ def history_inputs(thorough: bool) -> List[Tuple[str, bytes]]:
     if thorough:
         for i, (factor, variant, flagname, ov) in enumerate(factor_table()):
             flags = FLAG_VALUE[flagname] if flagname else 0
-            p, _ = gen_payload(flags, PCODES[i % len(PCODES)], ov)
+            try:
+                p, _ = gen_payload(flags, PCODES[i % len(PCODES)], ov)
+            except GenFailure:
+                continue  # reported by family B for the same variant
             out.append((f"variant/{factor}/{variant}", p))
     return out
 
@@ -1349,6 +1386,10 @@ def run(run: Run):
         run.notes.append(f"template has members the generator does not fill: {sorted(missing)}")
     if FLAGS_UNKNOWN_TO_HARNESS:
         run.notes.append(f"CompressedFlags has members the generator never sets: {FLAGS_UNKNOWN_TO_HARNESS}")
+    if FLAGS_DIFFERENT_IN_CODE:
+        run.notes.append(f"CompressedFlags members differ from the wire constants the generator uses: {FLAGS_DIFFERENT_IN_CODE}")
+    for what, e in _GEN_FAILURES.items():
+        gen_failure_violation(run, e, what, {"family": "rep", "what": what})
 
     flag_chunks = [list(range(i, min(i + 32, 1 << len(FLAG_LIST)))) for i in range(0, 1 << len(FLAG_LIST), 32)]
     # map dense index -> flag value (CompressedFlags bits are contiguous today; do not rely on it)
@@ -1383,12 +1424,23 @@ def run(run: Run):
         run.merge(d)
 
     c = run.counters
-    if c.get("F_histories", 0) != len(_HIST) or c.get("F_failed_encodes", 0) == 0 or c.get("F_expected_failures_that_succeeded", 0):
-        raise HarnessError("encode histories did not run as planned (an encode that was probed to fail succeeded, or none ran)")
+    # Internal consistency only: every planned history was started (a history that ends early reports a violation and still counts).
+    if c.get("F_histories", 0) != len(_HIST):
+        raise HarnessError("encode histories did not all run")
     if c.get("E_histories", 0) != len(_HIST) * len(SOURCES):
         raise HarnessError("decode histories did not all run")
-    if c.get("wellformed", 0) < c.get("A_flag_x_pcode", 0) or c.get("compared", 0) == 0:
-        raise HarnessError("vacuous: generated payloads were not judged")
+    # Vacuity guards are harness errors only on a tree that reports no violation (a broken decoder legitimately judges less).
+    if not run.violations:
+        if c.get("F_failed_encodes", 0) == 0:
+            raise HarnessError("vacuous: no failing encode was produced")
+        if c.get("wellformed", 0) < c.get("A_flag_x_pcode", 0) or c.get("compared", 0) == 0:
+            raise HarnessError("vacuous: generated payloads were not judged")
+    for k, text in (("F_expected_failures_that_succeeded", "encodes that a private probe saw fail succeeded through the serializer"),
+                    ("F_histories_thin", "encode histories with < 20 failing edits or no foreign failing encode"),
+                    ("F_histories_skipped_noncanonical", "encode histories skipped because the payload is not canonical (reported as reencode)"),
+                    ("E_shifted_partner_unavailable", "decode histories without a shifted partner")):
+        if c.get(k):
+            run.notes.append(f"{c[k]} {text}")
     run.coverage_extra.update(
         representatives=len(_REPS), representative_bytes=sum(len(p) for _, p, _ in _REPS), content_variants=len(_FACTORS),
         flag_combinations=1 << len(FLAG_LIST), pcodes=len(PCODES),
@@ -1443,6 +1495,16 @@ def replay(w):
     if w.get("kind") == "history":
         hp = w["hex"] if isinstance(w["hex"], (bytes, bytearray)) else bytes.fromhex(w["hex"])
         run_history(part, str(w.get("label")), hp, str(w["source"]))
+        return list(part.viol.values())
+    gen = w.get("gen")
+    if isinstance(gen, dict) and gen.get("family") in ("A", "B", "S"):  # regenerate the case: also re-checks the template-encode clauses
+        run_gen(part, gen["family"], int(gen["flags"]), int(gen["pcode"]), gen.get("factor"), gen.get("state"))
+        return list(part.viol.values())
+    if isinstance(gen, dict) and gen.get("family") == "rep":
+        _GEN_FAILURES.clear()
+        representatives()
+        for what, e in _GEN_FAILURES.items():
+            gen_failure_violation(part, e, what, gen)
         return list(part.viol.values())
     p = w["hex"] if isinstance(w["hex"], (bytes, bytearray)) else bytes.fromhex(w["hex"])
     tops = [(int(a), str(b)) for a, b in w["tops"]] if w.get("tops") else None
